@@ -97,7 +97,17 @@ class Driver:
         if not self.lines:
             return []
         data = ("\n".join(self.lines) + "\n").encode()
-        p = subprocess.run([DRIVER_BIN], input=data, stdout=subprocess.PIPE, stderr=subprocess.PIPE)
+        p = None
+        for attempt in range(5):
+            try:
+                p = subprocess.run([DRIVER_BIN], input=data, stdout=subprocess.PIPE, stderr=subprocess.PIPE)
+                break
+            except OSError as e:            # ETXTBSY / ENOENT while another process relinks the binary: wait and retry
+                import time as _t
+                _t.sleep(0.5 * (attempt + 1))
+                err = e
+        if p is None:
+            raise DriverUnavailable("driver could not be started: %r" % (err,))
         if p.returncode != 0:
             raise DriverUnavailable("driver exited %d: %s" % (p.returncode, p.stderr.decode()[:500]))
         out = p.stdout.decode().split("\n")
